@@ -1,7 +1,7 @@
 """Developer aid: print the normalised event summary of a function."""
 import sys
 from .loader import Program
-from .flow import summarise
+from .flow import spliced as summarise
 from . import terms as T
 
 def main(argv):
